@@ -25,7 +25,7 @@ EXPLANATION = (
 
 def run(tier: str) -> Check:
     check = Check("C15", tier, EXPLANATION)
-    check.rules = ["SHARED-WRITE", "ALLOC", "DELEGATE", "MODULE-ENTRY"]
+    check.rules = ["SHARED-WRITE", "ALLOC", "CLASS-MUTABLE", "DELEGATE", "MODULE-ENTRY"]
     check.assumptions = [
         "thread schedules are covered only through 'no shared mutable write exists'; atomicity of the benign cache writes is assumed (idempotent)",
         "objects reachable only from locals of a call are per-call (allocation-site abstraction, flow- and context-insensitive)",
@@ -33,6 +33,7 @@ def run(tier: str) -> Check:
     repo, _ = fill(check, tier)
     shared.analyse(check, repo)
     shared.allocation_sites(check, repo)
+    shared.class_level_mutables(check, repo)
     # generated module: per-call state
     from .. import modcheck, ops
 
